@@ -447,6 +447,21 @@ pub fn accepts(prop: &str, v: &Viol, ops: &[OpRec]) -> bool {
                 "recv_after_disconnect",
                 "recv_after_failed_send",
             ]) || (p == "stuck_illegit" && v.detail.contains("handle is left"))
+                // an operation that was in flight while a handle of the other side was dropped must
+                // end with an error or a genuine value, its payload accounted for
+                || ((in_list(LEDGER_ALL) || p == "corrupt_value")
+                    && !ops.iter().any(|c| c.k == K::Close && c.res == Res::Unit)
+                    && opk
+                        .map(|o| {
+                            (o.k.is_send() || o.k.is_recv())
+                                && ops.iter().any(|d| {
+                                    d.k == K::DropH
+                                        && d.side_send == Some(!o.k.is_send())
+                                        && d.inv < if o.ret == 0 { u64::MAX } else { o.ret }
+                                        && o.inv < if d.ret == 0 { u64::MAX } else { d.ret }
+                                })
+                        })
+                        .unwrap_or(false))
                 // senders released by / failing after the disconnect keep or drop their value once
                 || (in_list(LEDGER_ALL)
                     && opk
